@@ -1,3 +1,3 @@
-CONSTANTS Scope = "bad" OneByOne = FALSE Mutant = "none"
+CONSTANTS Scope = "bad" OneByOne = FALSE Mutant = "none" Pick = {}
 SPECIFICATION Spec
 INVARIANT Emit
